@@ -482,6 +482,12 @@ pub fn dedicated_inputs() -> Vec<(&'static str, Mods, usize)> {
         ],
         8,
     ));
+    // items named like predefined types: how a predefined type is spelt depends on the module
+    // it is written in, whatever was written before it
+    for (k, (_, mods, ptrw)) in crate::gen_special::shadow_programs(9000).into_iter().enumerate() {
+        let name: &'static str = ["shadowed-predefined-names/0", "shadowed-predefined-names/1", "shadowed-predefined-names/2", "shadowed-predefined-names/3", "shadowed-predefined-names/4", "shadowed-predefined-names/5"][k % 6];
+        out.push((name, mods, ptrw));
+    }
     // user type named like a generated vftable struct, duplicates: consistently rejected
     out.push((
         "user-type-named-like-vftable",
